@@ -196,8 +196,26 @@ def rename(c0, c1, c2, c3, c4, c5, active):
     return True
 
 
+def rename_noparams(c0, c1, c2, c3, c4, c5):
+    """an interface WITHOUT parameters: no name of the carried body may be touched"""
+    N = nm(c0, c1, c2, c3, c4, c5)
+    ir = {"name": "f", "type": "static", "doc": "Summary line", "params": OrderedDict(), "returns": None,
+          "_internal": {"body": body_template(N), "from_name": "f", "from_type": "static"}}
+    cd = emit.class_(ir, emit_call=True, class_name="K", word_wrap=False)
+    call = [n for n in cd.body if isinstance(n, ast.FunctionDef) and n.name == "__call__"]
+    if len(call) != 1:
+        return False
+    want = body_template(N)
+    got = call[0].body
+    return len(got) == len(want) and all(same_tree(_strip_ctx(g), _strip_ctx(w)) for g, w in zip(got, want))
+
+
 def obligations(tier, seed):
     obs = []
+    obs.append(Ob(name="rename_call_noparams", params=[("c%d" % i, "int") for i in range(6)],
+                  pre=["all(0 <= x < 8 for x in (c0, c1, c2, c3, c4, c5))"], body="H.rename_noparams(c0, c1, c2, c3, c4, c5)",
+                  witness=(2, 0, 1, 3, 4, 5), bounds="the same body template on an interface with zero parameters: __call__ body identical",
+                  timeout=150, path_timeout=100, funcs=FUNCS))
     N = len(TABLE)
     Nq = len([t for t in TABLE if len(t[0]) <= 2])
     for method in (0, 1):
